@@ -62,3 +62,13 @@ Example C04_typed_example :
            FieldModel.VU 21956; FieldModel.VU 0], []) /\
   length (FieldModel.layout_of 8 0 769 3 0) = 10%nat.
 Proof. vm_compute. split; reflexivity. Qed.
+
+(* ---- senc / saiz: whatever the encoder writes for the samples of a senc box is, sample by sample, exactly as long as
+   the auxiliary-information size saiz lists for that sample (IV, plus 2 + 6k with k subsamples), for every flags
+   value, IV size and subsample count list *)
+Theorem C04_senc_bytes_match_saiz_sizes :
+  forall flags iv counts vs bs,
+    FieldModel.enc_fields (FieldModel.l_senc_samples flags iv counts) vs = Some bs ->
+    length bs = list_sum (map (FieldProofs.senc_sample_size flags iv) counts).
+Proof. intros flags iv counts vs bs H. rewrite (FieldProofs.enc_fields_length _ _ _ H). exact (FieldProofs.senc_samples_len flags iv counts). Qed.
+Print Assumptions C04_senc_bytes_match_saiz_sizes.
